@@ -1,18 +1,28 @@
 package c06
 
 import (
+	"encoding/json"
 	"fmt"
 	"os"
-	"testing"
 	"strings"
+	"testing"
+
+	"pgregory.net/rapid"
 
 	"verif/xlate"
 )
 
+// development helpers (run only when the env variables are set)
+
 func TestProbe(t *testing.T) {
+	if os.Getenv("PROBE") == "" {
+		t.Skip()
+	}
 	qs := strings.Split(os.Getenv("PROBE"), "|||")
 	for _, q := range qs {
-		if q == "" { continue }
+		if q == "" {
+			continue
+		}
 		m, err := xlate.Parse(q)
 		if err != nil {
 			fmt.Printf("Q: %s\n  PARSE ERR: %v\n", q, err)
@@ -24,5 +34,77 @@ func TestProbe(t *testing.T) {
 			continue
 		}
 		fmt.Printf("Q: %s\n  SQL: %s\n  PARAMS: %v\n", q, res.SQL, res.Params)
+	}
+}
+
+// TestMinimise greedily blanks the names of a stored failing case.
+func TestMinimise(t *testing.T) {
+	f := os.Getenv("MINIMISE")
+	if f == "" {
+		t.Skip()
+	}
+	raw, err := os.ReadFile(f)
+	if err != nil {
+		t.Fatal(err)
+	}
+	var rc struct {
+		Case Case `json:"case"`
+	}
+	if err := json.Unmarshal(raw, &rc); err != nil {
+		t.Fatal(err)
+	}
+	c := rc.Case
+	_, err = oracle(c)
+	if err == nil {
+		fmt.Println("case passes")
+		return
+	}
+	for i := range c.Names {
+		if c.Names[i] == "" {
+			continue
+		}
+		old := c.Names[i]
+		c.Names[i] = ""
+		if _, e := oracle(c); e == nil {
+			c.Names[i] = old
+		}
+	}
+	_, err = oracle(c)
+	out, _ := json.Marshal(c)
+	msg := err.Error()
+	if len(msg) > 3000 {
+		msg = msg[:3000]
+	}
+	fmt.Printf("MINIMAL NAMES: %s\n%s\n", out, msg)
+}
+
+// TestGenStats tallies why generated queries are rejected.
+func TestGenStats(t *testing.T) {
+	if os.Getenv("GENSTATS") == "" {
+		t.Skip()
+	}
+	tally := map[string]int{}
+	example := map[string]string{}
+	n := 0
+	rapid.Check(t, func(rt *rapid.T) {
+		text, _ := genQueryText(rt)
+		n++
+		q, err := xlate.Parse(text)
+		key := "ok"
+		if err != nil {
+			key = "parse: " + err.Error()
+		} else if _, err := xlate.Translate(q, nil); err != nil {
+			key = "translate: " + err.Error()
+		}
+		if len(key) > 90 {
+			key = key[:90]
+		}
+		tally[key]++
+		if len(example[key]) == 0 || len(text) < len(example[key]) {
+			example[key] = text
+		}
+	})
+	for k, v := range tally {
+		fmt.Printf("%5d %s\n      e.g. %s\n", v, k, example[k])
 	}
 }
